@@ -1483,6 +1483,19 @@ pub fn generate(seed: u64) -> C11Scenario {
     for (path, body) in overrides {
         set_entry(&mut entries, &path, body);
     }
+    if matches!(backend, Backend::RealFs | Backend::RealLib) && !project.input_is_file && rk.chance(1, 3) {
+        // entries whose metadata cannot be read (dangling symbolic links) next to the
+        // sources: they are skipped with a warning; no sibling may get lost with them
+        let input_dir = gen::normalize(&project.input);
+        for name in ["dangling-link", "aa-dangling", "sub/zz-dangling", "other dir/mm-dangling"] {
+            if rk.chance(1, 2) {
+                entries.push(FsEntry {
+                    path: gen::join(&input_dir, name),
+                    body: Body::Symlink("/nonexistent/dvsim-target".to_owned()),
+                });
+            }
+        }
+    }
     // resolve @mirror placeholders now that the layout is known
     let mut scn = C11Scenario {
         seed,
